@@ -205,6 +205,15 @@ fn dialect_values(thorough: bool) -> Vec<RV> {
         v.push(RV::Bytes(vec![b, 255 - b]));
     }
     v.push(RV::Bytes(vec![]));
+    // every ordered pair over boundary octets, digits included (an escaped octet followed by a
+    // digit: octal escapes are greedy)
+    let oct = [0u8, 1, 7, 8, 27, 31, 32, 34, 48, 53, 55, 56, 57, 92, 97, 127, 128, 255];
+    for a in oct {
+        for b in oct {
+            v.push(RV::Bytes(vec![a, b]));
+            v.push(RV::Bytes(vec![a, b, a]));
+        }
+    }
     for c in crate::domains::name_candidates(2) {
         v.push(RV::Sym(c.clone()));
         v.push(RV::Kw(c));
